@@ -14,7 +14,7 @@ var lifecycleAlphabet = func() []letter {
 	var out []letter
 	for _, l := range historyAlphabet {
 		switch l.name {
-		case "C1", "C0", "D", "R1", "R0", "T", "S", "Hgood":
+		case "C1", "C0", "D", "R1", "R0", "T", "S", "Sfail", "Hgood":
 			out = append(out, l)
 		}
 	}
@@ -26,7 +26,7 @@ var lifecycleAlphabet = func() []letter {
 // C14: TCP client lifecycle — histories (sequential, exhaustive) and interleavings.
 func C14(c *core.Ctx) {
 	// (a) every call sequence up to a bound, with factories that fail on chosen calls
-	historySweep(c, "c14", lifecycleAlphabet, c.N(3, 5), c.N(1500, 8000), c.N(8, 10))
+	historySweep(c, "c14", lifecycleAlphabet, c.N(3, 5), c.N(1000, 8000), c.N(8, 10))
 	// (b) concurrent mixes under the deterministic scheduler (and the race detector)
 	type conf struct {
 		name   string
